@@ -72,18 +72,23 @@ PROPS = {
     },
     "C07": {
         "lean": "Props.C07",
-        "domains": [{"name": "sched", "env": {"VERIF_SCHED_HANG": "1"}}],
+        "domains": [{"name": "sched"}],
         "trusted": ["the verif-tagged event-log hooks in /repo record acquire-type events after the slot is really taken and release-type "
-                    "events before it is really given back, so the slot count read off the log never exceeds the real one",
-                    "dedup keys identify the task (GetHash): assumption `KeysByTask` of the liveness theorems"],
+                    "events before it is really given back, so the slot count read off the log never exceeds the real one"],
         "assumptions": ["commands are shell builtins (`exit N`); the Go scheduler is perturbed by seeded delays at hook points, not controlled"],
         "level_text": "Theorems over every trace the executor LTS accepts (all programs, flags, interleavings): slots in use = number of activations "
                       "holding one <= N, shell commands run only while holding a slot (C07_bound, C07_tokens_are_holders, raw monitors boundOk/holdMon); "
-                      "a dependency may enter as soon as its parent waits, acquire waits only for a free slot; deadlock freedom for every program without "
-                      "a reference cycle through a deduplicated task (C07_no_deadlock), termination of every program (C07_terminates_all), a quiescent "
-                      "configuration is final (C07_completes); fewer than MaximumTaskCall activations of a task pass the counter, the others return 204 "
-                      "(201 wrapping through task: calls). FALSE as stated for cycles through run: once tasks: machine-checked deadlock "
-                      "(C07_once_cycle_deadlock). Tie: event log of the real executor replayed through the same `replay`, boundOk evaluated on the raw log; "
+                      "a dependency may enter as soon as its parent waits, acquire waits only for a free slot; for EVERY program (cyclic or not, through "
+                      "deduplicated tasks or not; no assumption on dedup keys): the wait-for relation between unfinished executions is acyclic in every "
+                      "reachable configuration (C07_wait_acyclic; the executor's check is exact, C07_waitsFor_exact), no reachable configuration "
+                      "deadlocks (C07_no_deadlock), every trace is bounded (C07_terminates_all), a quiescent configuration is final (C07_completes); "
+                      "fewer than MaximumTaskCall activations of a task pass the counter, the others return 204, and so does a reference whose wait "
+                      "would close a cycle through a run: once / when_changed task (C07_cycle_error, C07_cycle_error_dedup; 201 wrapping through task: "
+                      "calls). The hang of the rule before the fix is kept as a fact about that rule only (C07_old_rule_deadlock). Tie: event log of the "
+                      "real executor replayed through the same `replay` (a log that ends without a result is never accepted), boundOk evaluated on the "
+                      "raw log; the placement of the wait-for bookkeeping and of the waitCycle hook inside the dedup critical section, and the context "
+                      "of deferred commands, pinned by SchedTie; a stream of reference cycles through deduplicated tasks (ring, several top-level calls "
+                      "under --parallel, deferred call) on every run; "
                       "MaximumTaskCall / `>=` / code 204 from Gen.Codes.",
         "level_note": "Trusted: Lean kernel; hook placement; harness rendering of abstract programs; liveness is a theorem about the model, the harness "
                       "only observes that sampled runs finish.",
@@ -436,32 +441,7 @@ def _c11_env_cache(m):
     return all(pool[i] in tainted for i in range(len(pool)) if a[i] != b[i])
 
 
-def _sched_dedup_cycle(case):
-    ts = case.get("tasks") or []
-    adj = {i: [d["task"] for d in (t.get("deps") or [])] + [c["call"] for c in (t.get("cmds") or []) if c.get("call", -1) >= 0] for i, t in enumerate(ts)}
-    def reach(a, b):
-        seen, st = set(), list(adj.get(a, []))
-        while st:
-            x = st.pop()
-            if x == b:
-                return True
-            if x in seen:
-                continue
-            seen.add(x); st += adj.get(x, [])
-        return False
-    return any(t.get("run") != "always" and reach(i, i) for i, t in enumerate(ts))
-
-
-def _c07_once_cycle(m):
-    """C07-once-cycle-deadlocks: a reference cycle through a run: once / when_changed task never ends: the inner reference
-    waits for the execution that is its own ancestor.  Narrow: the run hung, the model confirms the reached configuration
-    accepts no label (deadlock), and the program has a cycle through a deduplicated task."""
-    return (m.get("domain") == "sched" and m["impl"] == "hang" and m["model"].startswith("deadlock")
-            and _sched_dedup_cycle(m.get("case") or {}))
-
-
 FINDING_PREDICATES = {
-    "C07-once-cycle-deadlocks": _c07_once_cycle,
     "C11-dynamic-cache-ignores-env": _c11_env_cache,
     "C19-cli-values-are-templated": _c19_values_templated,
     "C19-no-value-text-deleted": _c19_no_value_deleted,
@@ -594,5 +574,5 @@ for _pid, _keys in {"C01": ["C01"], "C02": ["C02"], "C03": ["C03", "C03s"], "C06
         if _d["name"] == "sched":
             _d["verdict_keys"] = _keys
 
-HOOK_COMMITS = ["339bb5a", "c6219b0", "409314f", "54a7dc6", "a37d6ee", "6c1ad25", "35abbc3"]
+HOOK_COMMITS = ["339bb5a", "c6219b0", "409314f", "54a7dc6", "a37d6ee", "6c1ad25", "35abbc3", "0ffdce0"]
 NOT_YET = {}
